@@ -152,6 +152,18 @@ Section LmethodKnee.
     res_knee (lmethod_knee_res n lerr it limit).
 End LmethodKnee.
 
+(* generic shape of the DFDT refinement recursion over the successive knees ks (n points) *)
+Fixpoint dfdt_chain_b (holds_at : nat -> nat -> bool) (n last cutoff : nat) (ks : list nat) : bool :=
+  match ks with
+  | [] => false
+  | k :: ks' =>
+      holds_at cutoff k &&
+      let cutoff' := (k + 1) / 2 in
+      if (last <? k) && (2 <? n - cutoff')
+      then dfdt_chain_b holds_at n k cutoff' ks'
+      else match ks' with [] => true | _ => false end
+  end.
+
 (* ====================================================================================== *)
 (* Specification predicates (boolean; the theorems of Proofs/DetectorsFacts.v are stated with them and
    Run/JudgeC09.v evaluates them on the IMPLEMENTATION's output).  Each returns 0 when it holds and the
@@ -193,23 +205,15 @@ Section Spec.
         else if negb (first_argmin_b (interior (dfdt_diff grad t)) (k - 1)) then 3 else 0
     end.
 
-  (* the successive knees ks of dfdt.knee's loop form the stated recursion: each is the interior point of the
-     tail gradient[cutoff:] closest to that tail's ISODATA threshold, the next cut-off is ceil(knee/2), the loop
-     goes on exactly while the knee moved right and the next tail keeps more than 2 points *)
-  Fixpoint dfdt_chain_b (grad : list (T N)) (iso : nat -> option (T N)) (last cutoff : nat) (ks : list nat) : bool :=
-    match ks with
-    | [] => false
-    | k :: ks' =>
-        match iso cutoff with
-        | None => false
-        | Some t =>
-            (cutoff + 1 <=? k)%nat && (k + 2 <=? length grad)%nat &&
-            first_argmin_b (interior (dfdt_diff (skipn cutoff grad) t)) (k - cutoff - 1) &&
-            let cutoff' := ((k + 1) / 2)%nat in
-            if (last <? k)%nat && (2 <? length grad - cutoff')%nat
-            then dfdt_chain_b grad iso k cutoff' ks'
-            else match ks' with [] => true | _ => false end
-        end
+  (* the successive knees ks of dfdt.knee's loop form the stated recursion: each is `holds_at cutoff k`
+     (dfdt_at: the interior point of the tail gradient[cutoff:] closest to that tail's ISODATA threshold), the next
+     cut-off is ceil(knee/2), the loop goes on exactly while the knee moved right and the next tail keeps more than 2 points *)
+  Definition dfdt_at (grad : list (T N)) (iso : nat -> option (T N)) (cutoff k : nat) : bool :=
+    match iso cutoff with
+    | None => false
+    | Some t =>
+        (cutoff + 1 <=? k)%nat && (k + 2 <=? length grad)%nat &&
+        first_argmin_b (interior (dfdt_diff (skipn cutoff grad) t)) (k - cutoff - 1)
     end.
   (* dfdt.knee: r = the outcome (Ok ks = returned last ks after length ks iterations) *)
   Definition dfdt_knee_holds (grad : list (T N)) (iso : nat -> option (T N)) (r : res) : Z :=
@@ -220,7 +224,7 @@ Section Spec.
         | Some k =>
             if negb ((1 <=? k)%nat && (k + 2 <=? length grad)%nat) then 2
             else if negb (length ks <=? length grad)%nat then 3
-            else if negb (dfdt_chain_b grad iso 0 0 ks) then 4
+            else if negb (dfdt_chain_b (dfdt_at grad iso) (length grad) 0 0 ks) then 4
             else if negb (strictly_increasing (removelast ks)) then 5 else 0
         end
     | _ => 1
